@@ -69,6 +69,7 @@ var kernels = map[string]string{
 	"update-loop":            "(update {:a 1} :a (fn (x) (spin)))",
 	"reduce-loop":            "(reduce (fn (a x) (up a)) 0 [1 2 3])",
 	"earlier-future":         "@earlier-fut",
+	"future-among-many":      "@(future (sleep 100000))",
 	"let-value-loop":         "(let (a (up 0)) a)",
 	"argument-loop":          "(+ 1 (up 0))",
 	"vector-literal-loop":    "[1 (spin) 3]",
@@ -225,6 +226,18 @@ func runOnce(c Case, millis int) result {
 	if c.Shape.kernel() == "earlier-future" {
 		if r := box.ReadEval(bg, "(def earlier-fut (future (do (sleep 2500) :late)))", e); r.Err != nil {
 			panic(r.Err)
+		}
+	}
+	// forty futures of an EARLIER evaluation are still running (under a context of their own) when the program starts one more
+	if c.Shape.kernel() == "future-among-many" {
+		started := make(chan struct{})
+		go func() {
+			defer close(started)
+			box.ReadEval(bg, "(def earlier-many (map (fn (i) (future (sleep 6000))) (range 0 40)))", e)
+		}()
+		select {
+		case <-started:
+		case <-time.After(300 * time.Millisecond): // (if starting futures can block, the program under test will show it)
 		}
 	}
 	ast, err := lisp.READ(c.Shape.Text(), types.NewCursorFile("c07"), e)
